@@ -80,6 +80,7 @@ type tierCfg struct {
 }
 
 type propCfg struct {
+	Race       bool
 	Level      string
 	Rule       string
 	NonTrivial string
@@ -119,12 +120,20 @@ func main() {
 			seed = v
 		}
 	}
-	if *replay != "" {
-		os.Exit(doReplay(*bin, prop, *replay))
-	}
 	tc := cfg.Quick
 	if tier == "thorough" {
 		tc = cfg.Thorough
+	}
+	if cfg.Race {
+		if v := os.Getenv("VERIF_BUDGET_S"); v != "" {
+			if n, err := strconv.Atoi(v); err == nil {
+				tc.BudgetS = n
+			}
+		}
+		os.Exit(raceMain(*verif, prop, tier, seed, cfg, tc, *replay))
+	}
+	if *replay != "" {
+		os.Exit(doReplay(*bin, prop, *replay))
 	}
 	if v := os.Getenv("VERIF_BUDGET_S"); v != "" {
 		if n, err := strconv.Atoi(v); err == nil {
